@@ -596,6 +596,16 @@ XMLCh* XMLAbstractDoubleFloat::getCanonicalRepresentation(const XMLCh*         c
                 *retPtr++ = chDash;
             }
 
+            // XMLBigDecimal::parseDecimal() keeps the zeros between the
+            // decimal point and the first significant digit
+            // eg. .0123 -> manBuf = 0123, totalDigits = 4, fractDigits = 4
+            // skip them: the digit to the left of the point must not be zero
+            while (*manBuf == chDigit_0)
+            {
+                manBuf++;
+                totalDigits--;
+            }
+
             *retPtr++ = manBuf[0];
             *retPtr++ = chPeriod;
 
